@@ -76,6 +76,17 @@ func vInspectDsm(w *VWorld, h *VHist, spec CrashSpec, acked int, res *CrashResul
 	}
 	killDesc := fmt.Sprintf("commit=%d point=%s#%d", spec.Kill.Commit, spec.Kill.Point, spec.Kill.N)
 	histDesc := vOpsString(spec.Hist)
+	prop := "C07"
+	if spec.Prop != "" {
+		prop = spec.Prop
+	}
+	defer func() {
+		if prop != "C07" {
+			for i := range res.Viol {
+				res.Viol[i].Key = prop + strings.TrimPrefix(res.Viol[i].Key, "C07")
+			}
+		}
+	}()
 	p := DsmParams{IDs: spec.IDs}
 	var best *VCheck
 	res.Matched = -1
